@@ -9,9 +9,9 @@ import (
 	"github.com/Comcast/sheens/core"
 	"github.com/Comcast/sheens/match"
 	"pgregory.net/rapid"
-	"verif/internal/ev"
-	"verif/internal/jsongen"
-	"verif/internal/sm"
+	"verif/lib/ev"
+	"verif/lib/jsongen"
+	"verif/lib/sm"
 )
 
 // ---------------------------------------------------------------- C04
